@@ -335,3 +335,242 @@ Proof.
       replace (a - off + (r + i - (a - off))) with (r + i) by lia. exact Ei.
   - rewrite set_nth_skipn_gt by lia. exact H6.
 Qed.
+
+(* ---- the two index translations --------------------------------------------- *)
+Lemma layout_head_split off a b t its :
+  layout off ((a, b) :: t) its ->
+  live_of (firstn (b - off) its) = live_of (firstn (a - off) its) /\
+  length (live_of (firstn (a - off) its)) = a - off /\
+  live_of its = live_of (firstn (a - off) its) ++ live_of (skipn (b - off) its).
+Proof.
+  simpl. intros (H1 & H2 & H3 & H4 & H5 & H6).
+  assert (E1 : firstn (b - off) its = firstn (a - off) its ++ firstn (b - a) (skipn (a - off) its)).
+  { replace (b - off) with ((a - off) + (b - a)) by lia. apply firstn_add. }
+  assert (E2 : live_of (firstn (b - off) its) = live_of (firstn (a - off) its)).
+  { rewrite E1, live_of_app, (live_of_all_none _ H5). apply app_nil_r. }
+  split; [exact E2|]. split.
+  - rewrite (live_of_all_live _ H4). rewrite firstn_length. lia.
+  - rewrite <- (firstn_skipn (b - off) its) at 1. rewrite live_of_app, E2. reflexivity.
+Qed.
+
+Lemma real_loop_spec : forall d off its i,
+  layout off d its -> i < length (live_of its) ->
+  exists r x, real_loop d (off + i) = off + r /\ nth_error its r = Some (Some x) /\
+              length (live_of (firstn r its)) = i.
+Proof.
+  induction d as [|[a b] t IH]; intros off its i H Li.
+  - simpl in H. rewrite (live_of_all_live _ H) in Li.
+    destruct (all_live_nth its i H Li) as [x Ex]. exists i, x. simpl. split; [reflexivity|]. split; [exact Ex|].
+    rewrite (live_of_all_live _ (Forall_firstn _ i _ H)). rewrite firstn_length. lia.
+  - destruct (layout_head_split _ _ _ _ _ H) as (S1 & S2 & S3).
+    pose proof H as H0. simpl in H. destruct H as (H1 & H2 & H3 & H4 & H5 & H6).
+    cbn [real_loop]. destruct (off + i <? a) eqn:C.
+    + apply Nat.ltb_lt in C.
+      assert (Li' : i < length (firstn (a - off) its)) by (rewrite firstn_length; lia).
+      destruct (all_live_nth _ i H4 Li') as [x Ex]. rewrite nth_error_firstn in Ex by lia.
+      exists i, x. split; [reflexivity|]. split; [exact Ex|].
+      assert (Hl : Forall livep (firstn i its)).
+      { replace (firstn i its) with (firstn i (firstn (a - off) its)) by (rewrite firstn_firstn; f_equal; lia).
+        apply Forall_firstn. exact H4. }
+      rewrite (live_of_all_live _ Hl). rewrite firstn_length. lia.
+    + apply Nat.ltb_ge in C.
+      assert (Li' : i - (a - off) < length (live_of (skipn (b - off) its))).
+      { rewrite S3, app_length, S2 in Li. lia. }
+      destruct (IH b (skipn (b - off) its) (i - (a - off)) H6 Li') as (r' & x & R1 & R2 & R3).
+      exists (b - off + r'), x.
+      replace (off + i + (b - a)) with (b + (i - (a - off))) by lia.
+      split; [rewrite R1; lia|]. split.
+      * rewrite nth_error_skipn in R2. exact R2.
+      * rewrite firstn_add, live_of_app, app_length, S1, S2, R3. lia.
+Qed.
+
+Lemma apparent_loop_spec : forall d off its r x acc,
+  layout off d its -> nth_error its r = Some (Some x) ->
+  r - length (live_of (firstn r its)) <= acc ->
+  apparent_loop d (off + r) acc = acc - (r - length (live_of (firstn r its))).
+Proof.
+  induction d as [|[a b] t IH]; intros off its r x acc H E Hacc.
+  - simpl in H. simpl.
+    assert (Lr : r < length its) by (apply nth_error_Some; congruence).
+    rewrite (live_of_all_live _ (Forall_firstn _ r _ H)), firstn_length. lia.
+  - assert (Lr : r < length its) by (apply nth_error_Some; congruence).
+    pose proof (layout_outside _ _ _ _ _ H E) as Ho. inversion Ho as [|? ? Ho1 _]; subst. simpl in Ho1.
+    destruct (layout_head_split _ _ _ _ _ H) as (S1 & S2 & S3).
+    simpl in H. destruct H as (H1 & H2 & H3 & H4 & H5 & H6).
+    cbn [apparent_loop]. destruct (off + r <? a) eqn:C.
+    + apply Nat.ltb_lt in C.
+      assert (Hl : Forall livep (firstn r its)).
+      { replace (firstn r its) with (firstn r (firstn (a - off) its)) by (rewrite firstn_firstn; f_equal; lia).
+        apply Forall_firstn. exact H4. }
+      rewrite (live_of_all_live _ Hl), firstn_length. lia.
+    + apply Nat.ltb_ge in C. assert (Hb : b <= off + r) by lia.
+      assert (F : length (live_of (firstn r its)) =
+                  (a - off) + length (live_of (firstn (r - (b - off)) (skipn (b - off) its)))).
+      { replace r with ((b - off) + (r - (b - off))) at 1 by lia.
+        rewrite firstn_add, live_of_app, app_length, S1, S2. reflexivity. }
+      pose proof (live_of_length_le (firstn (r - (b - off)) (skipn (b - off) its))) as Lle.
+      rewrite firstn_length in Lle.
+      replace (off + r) with (b + (r - (b - off))) by lia.
+      rewrite (IH b (skipn (b - off) its) (r - (b - off)) x).
+      * rewrite F. lia.
+      * exact H6.
+      * rewrite nth_error_skipn. replace (b - off + (r - (b - off))) with r by lia. exact E.
+      * rewrite F in Hacc. lia.
+Qed.
+
+(* ---- append, drop the live last slot, cut the tail ----------------------------- *)
+Lemma layout_app_live : forall d off its x, layout off d its -> layout off d (its ++ [Some x]).
+Proof.
+  induction d as [|[a b] t IH]; intros off its x H.
+  - simpl in *. apply Forall_app. split; [exact H|]. constructor; [discriminate|constructor].
+  - simpl in H. destruct H as (H1 & H2 & H3 & H4 & H5 & H6).
+    cbn [layout]. rewrite app_length. simpl.
+    split; [lia|]. split; [lia|]. split; [lia|]. split; [|split].
+    + rewrite firstn_app_le by lia. exact H4.
+    + rewrite skipn_app_le by lia. rewrite firstn_app_le by (rewrite skipn_length; lia). exact H5.
+    + rewrite skipn_app_le by lia. apply IH. exact H6.
+Qed.
+
+Lemma layout_removelast : forall d off its x, layout off d (its ++ [Some x]) -> layout off d its.
+Proof.
+  induction d as [|[a b] t IH]; intros off its x H.
+  - simpl in *. apply Forall_app in H. tauto.
+  - simpl in H. destruct H as (H1 & H2 & H3 & H4 & H5 & H6).
+    rewrite app_length in H3. simpl in H3.
+    assert (Hb : b - off <= length its).
+    { destruct (Nat.le_gt_cases (b - off) (length its)) as [L|L]; [exact L|exfalso].
+      assert (E : nth_error (firstn (b - a) (skipn (a - off) (its ++ [Some x]))) (length its - (a - off))
+                  = Some (Some x)).
+      { rewrite nth_error_firstn by lia. rewrite nth_error_skipn.
+        replace (a - off + (length its - (a - off))) with (length its) by lia.
+        rewrite nth_error_app2 by lia. rewrite Nat.sub_diag. reflexivity. }
+      apply (Forall_nth_error _ _ _ _ H5) in E. discriminate. }
+    cbn [layout]. split; [lia|]. split; [lia|]. split; [lia|]. split; [|split].
+    + rewrite firstn_app_le in H4 by lia. exact H4.
+    + rewrite skipn_app_le in H5 by lia. rewrite firstn_app_le in H5 by (rewrite skipn_length; lia). exact H5.
+    + rewrite skipn_app_le in H6 by lia. eapply IH. exact H6.
+Qed.
+
+Definition no_straddle (cut : nat) (d : list (nat * nat)) : Prop :=
+  Forall (fun ab => fst ab < cut -> snd ab <= cut) d.
+
+Lemma sorted_filter_none lo cut d :
+  sorted_iv lo d -> cut <= lo -> filter (fun ab : nat * nat => fst ab <? cut) d = [].
+Proof.
+  intros H L. apply sorted_iv_bounds in H. induction H as [|[a b] d Hx _ IH]; [reflexivity|].
+  simpl in *. replace (a <? cut) with false by (symmetry; apply Nat.ltb_ge; lia). exact IH.
+Qed.
+
+Lemma layout_cut : forall d off its n,
+  layout off d its -> n <= length its -> no_straddle (off + n) d ->
+  layout off (filter (fun ab => fst ab <? off + n) d) (firstn n its).
+Proof.
+  induction d as [|[a b] t IH]; intros off its n H Ln Hs.
+  - simpl in *. apply Forall_firstn. exact H.
+  - pose proof (layout_sorted _ _ _ H) as Hsort.
+    simpl in H. destruct H as (H1 & H2 & H3 & H4 & H5 & H6).
+    inversion Hs as [|? ? Hs1 Hs2]; subst. simpl in Hs1.
+    cbn [filter fst]. destruct (a <? off + n) eqn:C.
+    + apply Nat.ltb_lt in C. specialize (Hs1 C).
+      cbn [layout]. rewrite firstn_length. split; [lia|]. split; [lia|]. split; [lia|]. split; [|split].
+      * rewrite firstn_firstn. replace (Init.Nat.min (a - off) n) with (a - off) by lia. exact H4.
+      * rewrite skipn_firstn_comm. rewrite firstn_firstn.
+        replace (Init.Nat.min (b - a) (n - (a - off))) with (b - a) by lia. exact H5.
+      * rewrite skipn_firstn_comm.
+        replace (off + n) with (b + (n - (b - off))) by lia.
+        apply IH; [exact H6|rewrite skipn_length; lia|].
+        replace (b + (n - (b - off))) with (off + n) by lia. exact Hs2.
+    + apply Nat.ltb_ge in C. simpl in Hsort. destruct Hsort as (_ & _ & Hsort).
+      rewrite (sorted_filter_none b (off + n) t Hsort) by lia.
+      simpl. replace (firstn n its) with (firstn n (firstn (a - off) its)) by (rewrite firstn_firstn; f_equal; lia).
+      apply Forall_firstn. exact H4.
+Qed.
+
+Lemma no_straddle_after_live off d its n :
+  layout off d its ->
+  (n = 0 \/ exists x, nth_error its (n - 1) = Some (Some x)) -> no_straddle (off + n) d.
+Proof.
+  intros H [->|[x E]].
+  - apply layout_sorted in H. apply sorted_iv_bounds in H.
+    eapply Forall_impl; [|exact H]. intros [a b]; simpl. lia.
+  - assert (n - 1 < length its) by (apply nth_error_Some; congruence).
+    pose proof (layout_outside _ _ _ _ _ H E) as Ho.
+    apply layout_sorted in H. apply sorted_iv_bounds in H.
+    unfold no_straddle, outside in *. rewrite Forall_forall in *. intros [a b] Hin; simpl.
+    specialize (Ho _ Hin). specialize (H _ Hin). simpl in *. lia.
+Qed.
+
+(* while ded and ded[-1][0] >= n: del ded[-1]   =   keep the intervals that start below n *)
+Lemma drop_while_app {A} (f : A -> bool) l1 l2 :
+  drop_while f (l1 ++ l2) = if forallb f l1 then drop_while f l2 else drop_while f l1 ++ l2.
+Proof.
+  induction l1 as [|x l1 IH]; simpl; [reflexivity|].
+  destruct (f x); simpl; [exact IH|reflexivity].
+Qed.
+
+Lemma drop_trailing_dead_filter lo d n :
+  sorted_iv lo d -> drop_trailing_dead d n = filter (fun ab => fst ab <? n) d.
+Proof.
+  revert lo; induction d as [|[a b] t IH]; intros lo H; [reflexivity|].
+  simpl in H. destruct H as (H1 & H2 & H3).
+  unfold drop_trailing_dead in *. cbn [rev filter fst]. rewrite drop_while_app.
+  destruct (a <? n) eqn:C.
+  - destruct (forallb (fun ab : nat * nat => n <=? fst ab) (rev t)) eqn:F.
+    + cbn [drop_while fst]. replace (n <=? a) with false by (symmetry; apply Nat.leb_gt; apply Nat.ltb_lt; exact C).
+      simpl. f_equal. symmetry.
+      rewrite forallb_forall in F.
+      assert (G : forall ab, In ab t -> (fst ab <? n) = false).
+      { intros ab Hin. apply Nat.ltb_ge. apply Nat.leb_le. apply F. apply in_rev in Hin. exact Hin. }
+      clear -G. induction t as [|x t IHt]; [reflexivity|]. simpl. rewrite (G x (or_introl eq_refl)).
+      apply IHt. intros ab Hin. apply G. right. exact Hin.
+    + rewrite rev_app_distr. simpl. f_equal. apply (IH b). exact H3.
+  - apply Nat.ltb_ge in C.
+    assert (F : forallb (fun ab : nat * nat => n <=? fst ab) (rev t) = true).
+    { apply forallb_forall. intros ab Hin. apply in_rev in Hin.
+      apply sorted_iv_bounds in H3. rewrite Forall_forall in H3. specialize (H3 _ Hin).
+      apply Nat.leb_le. lia. }
+    rewrite F. cbn [drop_while fst]. replace (n <=? a) with true by (symmetry; apply Nat.leb_le; lia).
+    simpl. symmetry. apply (sorted_filter_none b); [exact H3|lia].
+Qed.
+
+(* the run of tombstones at the right end *)
+Lemma leading_none_split r :
+  r = repeat None (leading_none r) ++ skipn (leading_none r) r /\
+  (skipn (leading_none r) r = [] \/ exists x r', skipn (leading_none r) r = Some x :: r').
+Proof.
+  induction r as [|[x|] r IH]; simpl.
+  - split; [reflexivity|left; reflexivity].
+  - split; [reflexivity|right; eauto].
+  - destruct IH as [IH1 IH2]. split; [f_equal; exact IH1|exact IH2].
+Qed.
+
+Lemma repeat_rev {A} (x : A) n : rev (repeat x n) = repeat x n.
+Proof.
+  induction n; simpl; [reflexivity|]. rewrite IHn. clear.
+  induction n; simpl; [reflexivity|]. f_equal. exact IHn.
+Qed.
+
+Lemma trailing_none_split its :
+  let nd := leading_none (rev its) in
+  let n := length its - nd in
+  its = firstn n its ++ repeat None nd /\ nd <= length its /\
+  (n = 0 \/ exists x, nth_error its (n - 1) = Some (Some x)).
+Proof.
+  cbn zeta. destruct (leading_none_split (rev its)) as [E1 E2].
+  set (nd := leading_none (rev its)) in *.
+  assert (E : its = rev (skipn nd (rev its)) ++ repeat None nd).
+  { rewrite <- (rev_involutive its) at 1. rewrite E1 at 1. rewrite rev_app_distr, repeat_rev. reflexivity. }
+  assert (Lnd : nd <= length its).
+  { rewrite <- (rev_length its). rewrite E1 at 1. rewrite app_length, repeat_length. lia. }
+  assert (Ln : length (rev (skipn nd (rev its))) = length its - nd).
+  { rewrite rev_length, skipn_length, rev_length. reflexivity. }
+  assert (F : firstn (length its - nd) its = rev (skipn nd (rev its))).
+  { rewrite E at 2. rewrite <- Ln. rewrite firstn_app, Nat.sub_diag, firstn_all. simpl. apply app_nil_r. }
+  split; [rewrite F; exact E|]. split; [exact Lnd|].
+  destruct E2 as [E2|[x [r' E2]]].
+  - left. rewrite E2 in Ln. simpl in Ln. lia.
+  - right. exists x. rewrite E2 in Ln, E. simpl in Ln, E. clear -E Ln Lnd.
+    rewrite app_length in Ln. simpl in Ln. rewrite rev_length in Ln.
+    rewrite E at 1. rewrite <- app_assoc. rewrite nth_error_app2 by (rewrite rev_length; lia).
+    rewrite rev_length. replace (length its - nd - 1 - length r') with 0 by lia. reflexivity.
+Qed.
